@@ -144,6 +144,29 @@ func init() {
 		"internal/race.ReadRange":         func(fr *frame, args []value) value { return nil },
 		"internal/race.WriteRange":        func(fr *frame, args []value) value { return nil },
 
+		"strconv.ParseInt": func(fr *frame, args []value) value {
+			if d, ok := args[0].(symDecimal); ok {
+				if asInt64(args[1]) == 10 && asInt64(args[2]) == 64 {
+					return tuple{sym{fr.i.ps.tt.resizeBV(d.s.t, kindSigned(d.s.k), 64), types.Int64}, iface{}}
+				}
+				fr.i.unsupported("strconv.ParseInt of a symbolic decimal with base/bitSize other than 10/64")
+			}
+			return fallThrough{}
+		},
+		"strconv.Atoi": func(fr *frame, args []value) value {
+			if d, ok := args[0].(symDecimal); ok {
+				return tuple{sym{fr.i.ps.tt.resizeBV(d.s.t, kindSigned(d.s.k), 64), types.Int}, iface{}}
+			}
+			return fallThrough{}
+		},
+
+		// deterministic stand-ins for the runtime's random source (listed as stubs in evidence)
+		"math/rand.runtime_rand":    func(fr *frame, args []value) value { return uint64(0) },
+		"math/rand/v2.runtime_rand": func(fr *frame, args []value) value { return uint64(0) },
+		"hash/maphash.runtime_rand": func(fr *frame, args []value) value { return uint64(0x9e3779b97f4a7c15) },
+		"os.runtime_rand":           func(fr *frame, args []value) value { return uint64(0) },
+		"internal/poll.runtime_rand": func(fr *frame, args []value) value { return uint64(0) },
+
 		// --- math ---
 		"math.Float64bits":     extFloat64bits,
 		"math.Float64frombits": extFloat64frombits,
